@@ -329,11 +329,16 @@ impl<'de> serde::Deserialize<'de> for Key {
 #[derive(Debug)]
 pub struct Prio {
     pub v: i32,
+    /// does not take part in Ord/Eq: tells two equal priorities apart
+    pub s: u32,
     pub tok: Token,
 }
 impl Prio {
     pub fn new(v: i32) -> Prio {
-        Prio { v, tok: Token::new() }
+        Prio { v, s: 0, tok: Token::new() }
+    }
+    pub fn stamped(v: i32, s: u32) -> Prio {
+        Prio { v, s, tok: Token::new() }
     }
 }
 impl PartialEq for Prio {
@@ -357,7 +362,7 @@ impl Ord for Prio {
 impl Clone for Prio {
     fn clone(&self) -> Prio {
         callback(Cb::ClonePrio);
-        Prio { v: self.v, tok: Token::new() }
+        Prio { v: self.v, s: self.s, tok: Token::new() }
     }
 }
 impl serde::Serialize for Prio {
